@@ -196,6 +196,7 @@ impl<'a> KeyRef<'a> {
 // X8: foreign error type, payload never inspected
 #[verifier::external_body]
 struct SError { _p: u8 }
+//@ stubs sst/src/lib.rs -> SError
 
 // "published limits" obligations: 16 KiB keys, 32 KiB values, 1 GiB - 64 MiB tables
 //@ extract sst/src/lib.rs | const MAX_KEY_LEN
